@@ -14,7 +14,7 @@ package transport
 //@   formals self, buff
 //@   trusted
 //@   pure
-//@   ensures [C07] result1 == frameStatus(buff, protocol.maxPackageLength) && result0 == frameLen(buff, protocol.maxPackageLength)
+//@   ensures [C05,C07] result1 == frameStatus(buff, protocol.maxPackageLength) && result0 == frameLen(buff, protocol.maxPackageLength)
 //
 // handleConn hands one frame to one handler job. The handler gets a context that was built for this frame
 // (allocated during this call), never one shared with another request of the connection (C01: the
@@ -35,6 +35,9 @@ package transport
 //@   requires [C07] frameStatus(pkg, protocol.maxPackageLength) == FrameFull && frameLen(pkg, protocol.maxPackageLength) == len(pkg)
 //@   modifies connSt.delivered, connSt.numInvoke
 //@   allocates
+//@   requires [C05] len(pkg) >= 4
+//@   site send#0 assert [C05] len(pkg) >= 4
+//@   site handleConn$1#0 assert [C05] len(pkg) >= 4
 //@   site send#0 assert [C01] fresh(ival(ctx))
 //@   site send#0 ghost connSt.delivered = connSt.delivered ++ pkg
 //@   site handleConn$1#0 assert [C01] fresh(ival(ctx))
@@ -56,6 +59,7 @@ package transport
 //@   modifies connSt.delivered, connSt.conn.in, connSt.conn.closed, connSt.idleTime, connSt.numInvoke
 //@   ensures [C07] connSt.conn.closed
 //@   ensures [C07] len(connSt.delivered) <= len(connSt.conn.in) && connSt.delivered == connSt.conn.in[0:len(connSt.delivered)]
+//@   safety [C05]
 //@   loop 0 invariant [C07] connSt.delivered ++ currBuffer == connSt.conn.in
 //@   loop 0 invariant [C07] frameStatus(currBuffer, protocol.maxPackageLength) == FrameLess
 //@   loop 0 invariant cap(currBuffer) == 0 || loopfresh(0, currBuffer)
